@@ -150,6 +150,10 @@ def valid_inputs(ctx, n_gen):
         g.toplevel(rng.choice([2, 4, 8]))
         out.append(g.source())
     out += ["int a, /* first */\n    b; ///< doc b\nenum E {\n  A\n  , B ///< doc B\n};\n"]
+    # a line that ends in the middle of a statement, the next line carries a trailing doc comment: a plain comment put at the end
+    # of the first line must not move that comment (fixed inputs: every line-keeping layout is tried on each of their gaps)
+    out += ["int a,\n    b; ///< doc b\n", "struct S {\n  int a,\n      b; ///< doc b\n};\n", "enum E {\n  A\n  , B ///< doc B\n};\n",
+            "int f(int x,\n      int y); ///< doc f\nint g;\n", "struct T {\n  int m\n    = 1; //!< doc m\n  int n;\n};\n"]
     out += ["#pragma once\n#include <a.h>\nint x;\n#pragma pack(push, 1)\nstruct S { int a; };\n#pragma pack(pop)\n#include \"b/c.h\"\n",
             "#pragma omp parallel for schedule(static, 4)\nvoid f();\n", "int x = 1'000; auto y = 12_km + \"s\"_x; char c = 'a';\n"]
     return out
@@ -220,7 +224,7 @@ def search(ctx, boost=False):
                 # the input has documentation comments and this gap has a line end: which declaration a comment trails or
                 # precedes depends on the lines, so only layouts that keep them are neutral
                 extra = line_keeping_layouts(text[st:en], "noslash" in kind)
-                lays = extra if ctx.thorough else rng.sample(extra, min(3, len(extra)))
+                lays = extra            # all of them, in both tiers: which one exposes a defect depends on the lines around the gap
             for lay in lays:
                 s.evaluations += 1
                 s.count(kind.split("|")[0])
